@@ -224,3 +224,65 @@ def check_signatures_and_dataclass(ctx, r):
                 construct="dataclass __init__ wrapping")
     else:
         ctx.ok("C02.3", jt.qualname, "dataclass: cls.__init__ = jaxtyped(cls.__init__, typechecker=typechecker)")
+        ctx.sub(_check_dataclass_skip_is_own, ctx, jt, good[0])
+
+
+def _check_dataclass_skip_is_own(ctx, jt, wrap_stmt):
+    """C02.7: the only way around `cls.__init__ = jaxtyped(cls.__init__, ..)` is "this very __init__ is already ours".  A skip decided by
+    something looked up on the *class* (`getattr(cls, marker)`, `hasattr(cls, ..)`, `cls.marker`) is inherited: a jaxtyped dataclass
+    derived from a jaxtyped dataclass looks wrapped although its own, freshly generated `__init__` is not -- its construction is never
+    checked."""
+    m = ctx.model
+    g = NoReturn(m).cfg(jt)
+    wrap_nodes = [n for n in g.live_nodes() if n.ast is wrap_stmt]
+    need(wrap_nodes, "C02.7: the __init__ wrapping statement is not in the CFG")
+    wn = wrap_nodes[0]
+    dom = g.dominators()
+    # the test that selects the dataclass branch
+    sel = [g.nodes[i] for i in dom[wn.id] if g.nodes[i].kind == "test" and "is_dataclass" in norm(g.nodes[i].ast)]
+    need(sel, "C02.7: the test selecting the dataclass branch (dataclasses.is_dataclass(fn)) was not found")
+    seln = sel[-1]
+    # tests between the selector and the wrapping statement whose other side leaves without wrapping
+    guards = [g.nodes[i] for i in dom[wn.id] if g.nodes[i].kind == "test" and seln.id in dom[i] and g.nodes[i] is not seln]
+    # ... and every test of the branch from which the function can be left without reaching the wrapping statement (a skip inside a
+    # try/else does not dominate the wrapping)
+    inside = set()
+    for k_, s_ in seln.succ:
+        if k_ in ("t", "f") and (s_.id in dom[wn.id] or s_ is wn or wn.id in g.reach_from(s_, avoid=lambda n: False)):
+            inside |= g.reach_from(s_, avoid=lambda n: n is wn)
+    for nid in sorted(inside):
+        n_ = g.nodes[nid]
+        if n_.kind == "test" and n_ is not seln and n_ not in guards and seln.id in dom[nid]:
+            guards.append(n_)
+    n_atoms = 0
+    for t in guards:
+        exprs = [t.ast]
+        # follow locals of the test to their definitions
+        seen = set()
+        work = [x.id for x in ast.walk(t.ast) if isinstance(x, ast.Name)]
+        while work:
+            nm = work.pop()
+            if nm in seen or nm in jt.params:
+                continue
+            seen.add(nm)
+            for d in c05._assignments_to(jt, nm):
+                if d[1] is not None:
+                    exprs.append(d[1])
+                    work += [x.id for x in ast.walk(d[1]) if isinstance(x, ast.Name)]
+        for e in exprs:
+            for x in ast.walk(e):
+                bad = None
+                if isinstance(x, ast.Call) and isinstance(x.func, ast.Name) and x.func.id in ("getattr", "hasattr") and x.args and norm(x.args[0]) == "fn":
+                    n_atoms += 1
+                    if not (len(x.args) > 1 and isinstance(x.args[1], ast.Constant) and x.args[1].value in ("__init__", "__dict__")):
+                        bad = norm(x)
+                elif isinstance(x, ast.Attribute) and norm(x.value) == "fn" and isinstance(x.ctx, ast.Load):
+                    n_atoms += 1
+                    if x.attr not in ("__init__", "__dict__", "__mro__", "__bases__", "__name__", "__qualname__", "__module__"):
+                        bad = norm(x)
+                if bad:
+                    ctx.bad("C02.7", jt, t.ast, f"wrapping a dataclass's __init__ is skipped on the strength of `{bad}`, which is looked up on the class and therefore inherited: "
+                            "a jaxtyped dataclass deriving from a jaxtyped dataclass is taken for wrapped and its own __init__ is never checked",
+                            construct=f"dataclass skip decided by inherited lookup {bad}")
+    if not any(fd.rule == "C02.7" for fd in ctx.findings):
+        ctx.ok("C02.7", jt.qualname, f"{len(guards)} guard(s) before the __init__ wrapping read only the class's own __init__ ({n_atoms} lookups on fn)")
